@@ -18,6 +18,7 @@ ASSUMPTIONS = [
     "set_params updates are generated so that the resulting configuration is valid (checked by a trial construction); set_params resets the fitted state (sktime semantics), which the model mirrors",
     "update uses pandas data whose index continues the training index; the reference is fit on new.combine_first(old)",
     "outputs are compared at 1e-12 relative; exceptions must have the same class in the real and in the history-free execution",
+    "change / local-anomaly detectors whose cost has a fixed parameter have identically zero scores (additive cost): their detections are rounding noise, so only threshold and scores are compared (1e-9 x scale)",
 ]
 
 N_DET_SLOTS = 4
@@ -296,17 +297,47 @@ class Interpreter:
             obj.fit(self.training_frame(m))
         return obj
 
+    def _is_degenerate(self, m):
+        """A change / local-anomaly detector whose cost has a *fixed* parameter: the cost is additive, so
+        every change score is mathematically 0 and every segmentation ties. Detections are then decided
+        by rounding noise (which depends e.g. on the memory layout of a copied frame), so only the
+        continuous quantities (threshold, scores) are compared, within a tolerance."""
+        spec = m["spec"]
+        if spec["cls"] in ("CAPA", "MVCAPA", "StatThresholdAnomaliser"):
+            return False
+        key = SHARE_KEY.get(spec["cls"])
+        sc = self.shared_spec[m["share"][1]] if m["share"] else spec.get(key)
+        while isinstance(sc, dict) and "cost" in sc:
+            sc = sc["cost"]
+        return isinstance(sc, dict) and sc.get("param") is not None
+
     def _output_op(self, method, op):
         if op["slot"] not in self.det:
             return
         m = self.det_model[op["slot"]]
         X = self.data[op["data"]]
+        degenerate = self._is_degenerate(m)
 
-        def conv(y):
-            return sparse_signature(y) if method == "predict" else y
+        def run(det, data):
+            y = getattr(det, method)(data)
+            if not degenerate:
+                return sparse_signature(y) if method == "predict" else y
+            sc = getattr(det, "scores", None)
+            vals = np.asarray(sc["score"] if hasattr(sc, "columns") else sc, dtype=float).reshape(-1) if sc is not None else np.zeros(0)
+            thr = float(getattr(det, "threshold_", getattr(det, "penalty_", 0.0)))
+            return np.concatenate(([thr], vals))
 
-        real = outcome_of(lambda: conv(getattr(self.det[op["slot"]], method)(X)))
-        fresh = outcome_of(lambda: conv(getattr(self._fresh_fitted(m), method)(X.copy(deep=True))))
+        real = outcome_of(lambda: run(self.det[op["slot"]], X))
+        fresh = outcome_of(lambda: run(self._fresh_fitted(m), X.copy(deep=True)))
+        if degenerate and real[0] == "ok" and fresh[0] == "ok":
+            a, b = real[1], fresh[1]
+            scale = 1.0 + float(np.abs(X.to_numpy()).max()) ** 2 * len(X)
+            if a.shape != b.shape or not np.allclose(a, b, rtol=1e-9, atol=1e-9 * scale):
+                raise Violation(f"{method}: threshold / scores differ from a freshly constructed object fitted the same way",
+                                op=op, real=_short(real), fresh=_short(fresh))
+            self.stats["degenerate_outputs"] = self.stats.get("degenerate_outputs", 0) + 1
+            self._touch(op["slot"], op["data"])
+            return
         self._same_outcome(method, op, real, fresh, compare_value=True)
         self._touch(op["slot"], op["data"])
         self.stats["outputs"] += 1
@@ -319,6 +350,89 @@ class Interpreter:
 
     def op_transform_scores(self, op):
         self._output_op("transform_scores", op)
+
+    def op_fit_predict(self, op):
+        """Convenience method: must equal fit followed by predict on a fresh object."""
+        self._fit_then(op, "fit_predict", "predict")
+
+    def op_fit_transform(self, op):
+        self._fit_then(op, "fit_transform", "transform")
+
+    def _fit_then(self, op, method, second):
+        if op["slot"] not in self.det:
+            return
+        m = self.det_model[op["slot"]]
+        X = self.data[op["data"]]
+
+        def conv(y):
+            return sparse_signature(y) if second == "predict" else y
+
+        was_fitted = m["fitted"]
+        real = outcome_of(lambda: conv(getattr(self.det[op["slot"]], method)(X)))
+        fresh = outcome_of(lambda: conv(getattr(self.fresh_detector(m).fit(X.copy(deep=True)), second)(X.copy(deep=True))))
+        self._same_outcome(method, op, real, fresh, compare_value=not self._is_degenerate(m))
+        if real[0] == "ok":
+            m["fitted"] = True
+            m["train"] = [op["data"]]
+            self.stats["outputs"] += 1
+            if was_fitted:
+                self.stats["refits"] += 1
+        else:
+            # the fit half may or may not have succeeded before the second half raised: state unknown
+            self._retire(op["slot"])
+            return
+        self._touch(op["slot"], op["data"])
+
+    def op_update_predict(self, op):
+        """update_predict(X) must equal update(X) followed by predict(X)."""
+        if op["slot"] not in self.det:
+            return
+        m = self.det_model[op["slot"]]
+        d = op["data"]
+        if not m["fitted"] or not m["train"] or d <= max(m["train"]) or \
+                self.data[d].shape[1] != self.data[m["train"][0]].shape[1]:
+            return
+        X = self.data[d]
+        real = outcome_of(lambda: sparse_signature(self.det[op["slot"]].update_predict(X)))
+        mm = dict(m, train=m["train"] + [d])
+        fresh = outcome_of(lambda: sparse_signature(self.fresh_detector(m).fit(self.training_frame(mm)).predict(X.copy(deep=True))))
+        self._same_outcome("update_predict", op, real, fresh, compare_value=not self._is_degenerate(m))
+        if real[0] == "ok":
+            m["train"] = m["train"] + [d]
+            self.stats["updates"] += 1
+            self.stats["outputs"] += 1
+            self._touch(op["slot"], d)
+        else:
+            self._retire(op["slot"])
+
+    def op_scorer_set_params(self, op):
+        """Nested or top-level set_params on a stand-alone scorer (valid configurations only)."""
+        if op["slot"] not in self.sc:
+            return
+        m = self.sc_model[op["slot"]]
+        new_spec = copy.deepcopy(m["spec"])
+        flat = {}
+        for k, v in op["params"].items():
+            if "__" in k:
+                outer, inner = k.split("__", 1)
+                if not (isinstance(new_spec.get(outer), dict) and "cls" in new_spec[outer]):
+                    return
+                new_spec[outer][inner] = v
+            else:
+                if k not in new_spec and k != "param":
+                    return
+                new_spec[k] = v
+            flat[k] = K.build(v)
+        try:
+            K.build(new_spec)
+        except Exception:  # noqa: BLE001
+            return
+        real = outcome_of(lambda: self.sc[op["slot"]].set_params(**flat))
+        if real[0] != "ok":
+            # invalid parameter name for this scorer class: nothing changed
+            return
+        m["spec"] = new_spec
+        m["train"] = None  # set_params resets the fitted state
 
     def op_new_scorer(self, op):
         with sut("constructing a scorer"):
@@ -412,6 +526,8 @@ def summarize(interp, n_ops):
         classes.append("update")
     if st_["errors_matched"]:
         classes.append("matched_exception")
+    if st_.get("degenerate_outputs"):
+        classes.append("fixed_parameter_cost_in_change_detector(continuous_comparison_only)")
     return {"nontrivial": st_["outputs"] > 0 and (multi or shared or st_["refits"] > 0 or st_["updates"] > 0),
             "classes": classes}
 
@@ -559,6 +675,33 @@ def make_machine(tier, api):
         def transform_scores(self, data, d):
             self.run({"op": "transform_scores", "slot": self._det_slot(data), "data": d % self.n_data()})
 
+        @precondition(lambda self: self.interp is not None and self.interp.det)
+        @rule(data=st.data(), d=st.integers(0, 4), method=st.sampled_from(["fit_predict", "fit_transform"]))
+        def fit_and_output(self, data, d, method):
+            self.run({"op": method, "slot": self._det_slot(data), "data": d % self.n_data()})
+
+        @precondition(lambda self: self.interp is not None and any(m["fitted"] for m in self.interp.det_model.values()))
+        @rule(data=st.data())
+        def update_predict(self, data):
+            fitted = sorted(s_ for s_, m in self.interp.det_model.items() if m["fitted"])
+            slot = data.draw(st.sampled_from(fitted))
+            m = self.interp.det_model[slot]
+            later = [d for d in range(self.n_data()) if d > max(m["train"])
+                     and len(self.datasets[d][0]) == len(self.datasets[m["train"][0]][0])]
+            if later:
+                self.run({"op": "update_predict", "slot": slot, "data": data.draw(st.sampled_from(later))})
+
+        @precondition(lambda self: self.interp is not None and self.interp.sc)
+        @rule(data=st.data(), value=st.sampled_from([0.0, 0.5, 1.5, None]))
+        def scorer_set_params(self, data, value):
+            slot = self._sc_slot(data)
+            spec = self.interp.sc_model[slot]["spec"]
+            nested = [k for k, v in spec.items() if isinstance(v, dict) and "cls" in v]
+            key = f"{nested[0]}__param" if nested else "param"
+            if spec["cls"] in ("CUSUM", "L2Saving"):
+                return
+            self.run({"op": "scorer_set_params", "slot": slot, "params": {key: value}})
+
         @rule(slot=st.integers(0, N_SCORER_SLOTS - 1), spec=st.sampled_from(SCORER_SPECS))
         def new_scorer(self, slot, spec):
             self.run({"op": "new_scorer", "slot": slot, "spec": spec})
@@ -604,7 +747,7 @@ FACETS = [
     Facet(name="histories", kind="stateful", check=check, machine=make_machine,
           rule=("rule-based state machine: pool of 3-5 generated DataFrames (different n and p, consecutive RangeIndex blocks), up to "
                 "4 detector slots (all seven detectors, optionally constructed around one of 2 shared cost objects), 3 scorer slots; "
-                "rules construct / clone / set_params (incl. nested cost__param of a shared cost) / fit / update / predict / transform "
+                "rules construct / clone / set_params (incl. nested cost__param of a shared cost or of a stand-alone scorer) / fit / update / fit_predict / fit_transform / update_predict / predict / transform "
                 "/ transform_scores / scorer fit / evaluate; after every output the same call on a freshly built object fitted on the "
                 "model's training data must agree; invariants: get_params equals the specification, caller data unchanged; "
                 "non-trivial history = produces outputs and has an object used with >= 2 datasets, a shared cost touched by >= 2 "
